@@ -48,6 +48,9 @@ func checkStructure(m *model, c Case, step int) error {
 	for k := range m.routes {
 		prefixesWithRoutes[k.name] = true
 	}
+	for n := range m.strat { // an entry is also kept for a prefix with a strategy choice of its own
+		prefixesWithRoutes[n] = true
+	}
 	switch fs.Kind {
 	case "nametree":
 		nodes := map[string]bool{}
